@@ -1,4 +1,5 @@
 import pathlib
+import re
 
 from pyrtma.parser import (
     Parser,
@@ -112,9 +113,19 @@ class MatlabDefCompiler:
         )
 
     def generate_constant_string(self, c: ConstantString):
-        # c.value is the text wrapped in double quotes: a quote inside a matlab string is doubled
-        text = c.value[1:-1].replace('"', '""')
-        return self.generate_field("defines", self.sanitize_name(c.name), f'"{text}"')
+        # c.value is the text wrapped in double quotes: a quote inside a matlab string is doubled.
+        # A control character (tab, line feed, ...) cannot be written inside a matlab literal
+        # (it knows no escapes and may not span lines): it is appended as char(code).
+        terms = []
+        for part in re.split(r"([\x00-\x1f\x7f])", c.value[1:-1]):
+            if len(part) == 1 and (ord(part) < 32 or ord(part) == 127):
+                terms.append(f"char({ord(part)})")
+            elif part or not terms:
+                text = part.replace('"', '""')
+                terms.append(f'"{text}"')
+        return self.generate_field(
+            "defines", self.sanitize_name(c.name), " + ".join(terms)
+        )
 
     def generate_host_id(self, hid: HID) -> str:
         return self.generate_field("HID", self.sanitize_name(hid.name), hid.value)
